@@ -81,10 +81,14 @@ def handle (s : Sexp) : D String :=
       let r := match kind with
         | .atom "tel" => createFormula t
         | .atom "del" => createDynamicFormula t
+        | .atom "head" => (hCreateFormula t).map fun _ => BForm.const true
         | _ => .error (.runtime "bad kind")
-      match r with
-      | .ok f => pure ("ok " ++ f.rep)
-      | .error e => pure ("ERR " ++ e.tag)
+      match r, kind with
+      | .ok _, .atom "head" => match hCreateFormula t with
+          | .ok hf => pure ("ok " ++ hf.rep)
+          | .error e => pure ("ERR " ++ e.tag)
+      | .ok f, _ => pure ("ok " ++ f.rep)
+      | .error e, _ => pure ("ERR " ++ e.tag)
   | .list (.atom "eqns" :: h :: atoms) => do
       -- each atom: (kind step (elems...)) ; roots are the element conjunctions at their steps
       let h ← decNat h
